@@ -196,9 +196,12 @@ fn random_value(t: &Type, rng: &mut Rng) -> Value {
 fn main_inputs(ctx: &Context, _rng: &mut Rng) -> Option<(Graph, Vec<Value>)> {
     ctx.check_finalized().ok()?;
     let g = ctx.get_main_graph().ok()?;
-    for n in g.get_nodes() {
-        if let Operation::Input(t) = n.get_operation() {
-            // huge declared types (size-limit histories) cannot be materialised
+    // huge declared types (size-limit histories) cannot be materialised: this holds for inputs and
+    // for every node the evaluation may reach (Zeros/Ones/Constant of a legal but huge type, also
+    // inside called graphs) — an allocation failure aborts the process and cannot be caught
+    for gr in ctx.get_graphs() {
+        for n in gr.get_nodes() {
+            let t = n.get_type().ok()?;
             if size_estimate(&t).map_or(true, |s| s > 1_000_000) {
                 return None;
             }
